@@ -410,7 +410,13 @@ class PDFPageInterpreter:
             else:
                 name = literal_name(spec)
             if name == "ICCBased" and isinstance(spec, list) and len(spec) >= 2:
-                return PDFColorSpace(name, stream_value(spec[1])["N"])
+                ncomponents = resolve1(stream_value(spec[1]).get("N"))
+                if not isinstance(ncomponents, int):
+                    # /N is required; without it the colour space is unusable
+                    if settings.STRICT:
+                        raise PDFInterpreterError("Invalid ICCBased color space")
+                    return None
+                return PDFColorSpace(name, ncomponents)
             elif name == "DeviceN" and isinstance(spec, list) and len(spec) >= 2:
                 return PDFColorSpace(name, len(list_value(spec[1])))
             else:
